@@ -105,6 +105,12 @@ Cands(st, l) ==
     CASE l.ev.t = "Api" -> {[r |-> DoApi([st EXCEPT !.ncall = @ + 1], ApiOf(l.ev, MidHint(l))), missed |-> NoMissed]}
       [] l.ev.t = "G"   ->
            {[r |-> DoGw(st, GwOf(l.ev.p)), missed |-> NoMissed]}
+           \cup \* a refusal (REGACK / SUBACK with a return code other than accepted) may fail the call at once or be
+                \* taken as "try again later" (congestion): no property decides that.  A refusal is no progress: the
+                \* retransmission schedule and the bound of the call stay those of the first transmission
+              (IF st.alive /\ l.ev.p.t \in {"REGACK", "SUBACK"} /\ l.ev.p.rc # 0 /\ l.ev.p.mid \in DOMAIN st.tx
+                  /\ st.tx[l.ev.p.mid].kind = (IF l.ev.p.t = "REGACK" THEN "reg" ELSE "sub")
+               THEN {[r |-> Res(Refused(st, GwOf(l.ev.p)), <<>>, {}), missed |-> NoMissed]} ELSE {})
            \cup \* the code restarts the sleep period on a duplicated DISCONNECT reply; both are accepted
                 \* here, the bound of the Sleep call (C28) is not extended by it
               (IF st.alive /\ l.ev.p.t = "DISCONNECT" /\ "DISCONNECT" \in DOMAIN st.ty
